@@ -60,9 +60,27 @@ KINDS = {
     # thorough only: ssh 255 failure but no 255 callback given
     'r255n': dict(key='remote-x', cmd=['ssh', 'hostx', 'true'], host='hostx',
                   code=255, auto=True, never=False, cb255=0),
+    # stop requests that arrive WHILE the pool is reaping / answering: the
+    # command's own callback calls set_stopping() / close() on the pool (as a
+    # callback reaching Scheduler._set_stop() would)
+    'cbstop': dict(key='x', cmd=['true'], host='localhost',
+                   code=0, auto=True, never=False, cb255=0,
+                   hook=('cb', 'stop')),
+    'cbclose': dict(key='x', cmd=['true'], host='localhost',
+                    code=0, auto=True, never=False, cb255=0,
+                    hook=('cb', 'close')),
+    'cb255stop': dict(key='remote-x', cmd=['ssh', 'hostx', 'true'],
+                      host='hostx', code=255, auto=True, never=False,
+                      cb255=1, hook=('cb255', 'stop')),
 }
-QUICK_KINDS = ['short', 'slow', 'fail', 'r255', 'tmo', 'js']
-THOROUGH_KINDS = QUICK_KINDS + ['r255n']
+BASE_KINDS = ['short', 'slow', 'fail', 'r255', 'tmo', 'js']
+HOOK_KINDS = ['cbstop', 'cbclose', 'cb255stop']
+# passes: (kinds, depth)
+QUICK_PASSES = [(BASE_KINDS + HOOK_KINDS, 5)]
+THOROUGH_PASSES = [
+    (BASE_KINDS + ['r255n'], 7),
+    (BASE_KINDS + ['r255n'] + HOOK_KINDS, 6),
+]
 
 _CUR = None          # the harness whose pool is executing (one at a time)
 _INSTALLED = False
@@ -228,6 +246,17 @@ class Harness:
                 raise HarnessError('callback got a foreign context')
             cmd.events.append((self.cur_op, which, ctx.ret_code))
             self.stats[which] += 1
+            hook = cmd.spec.get('hook')
+            if hook and hook[0] == which:
+                # the stop request is made from inside the pool's own call
+                self.stats[f'{hook[1]}_requested_by_callback_in_'
+                           f'{self.cur_op}'] += 1
+                if hook[1] == 'stop':
+                    self.stop_req = True
+                    self.pool.set_stopping()
+                else:
+                    self.close_req = True
+                    self.pool.close()
         return cb
 
     def _vio(self, sig, what):
@@ -309,9 +338,16 @@ class Harness:
                 self._cmd_of(e[0]).spec['key'] == JOBS_SUBMIT
                 for e in pool.queuings):
             self.stats['process_with_queued_jobs_submit_while_stopping'] += 1
+        js_waiting_unstopped = (not self.stop_req) and any(
+            self._cmd_of(e[0]).spec['key'] == JOBS_SUBMIT
+            for e in pool.queuings)
         kills0 = len(self.kills)
         pool.process()
         self.stats['timeout_kills'] += len(self.kills) - kills0
+        if js_waiting_unstopped and self.stop_req:
+            self.stats[
+                'stop_by_callback_during_process_with_queued_jobs_submit'
+            ] += 1
         self.now += TICK
 
     def _live_running(self):
@@ -519,21 +555,43 @@ def _describe(size, ops):
 
 
 def run(ctx: Ctx) -> Result:
-    depth = ctx.pick(5, 7)
-    kinds = ctx.pick(QUICK_KINDS, THOROUGH_KINDS)
+    passes = ctx.pick(QUICK_PASSES, THOROUGH_PASSES)
     sizes = [1, 2]
+    all_seen = set()
+    stats = Counter()
+    vios = {}
+    transitions = 0
+    per_pass = []
+    samples = []
+    for kinds, depth in passes:
+        nt0 = transitions
+        seen, per_depth = _explore(
+            ctx, kinds, depth, sizes, stats, vios, samples)
+        transitions += stats.pop('_transitions')
+        per_pass.append({
+            'command_kinds': kinds, 'depth': depth, 'states': len(seen),
+            'transitions': transitions - nt0,
+            'new_states_per_depth': per_depth})
+        all_seen |= seen
+        del seen
+    seen = all_seen
+    depth = max(d for _, d in passes)
+    kinds = sorted({k for ks, _ in passes for k in ks}, key=list(KINDS).index)
+    return _finish(ctx, passes, sizes, seen, stats, vios, transitions,
+                   per_pass, samples, depth, kinds)
 
+
+def _explore(ctx, kinds, depth, sizes, stats, vios, samples):
+    """One breadth-first pass; updates stats/vios/samples in place."""
     seen = set()
     frontier = []
     for size in sizes:
         h = Harness(size)
         seen.add(_digest(h.key()))
         frontier.append((size, (), tuple(h.enabled(kinds))))
-    stats = Counter()
-    vios = {}
+        h.dispose()
     transitions = 0
     per_depth = []
-    samples = []
     for d in range(1, depth + 1):
         items = [(i, s, ops, acts) for i, (s, ops, acts) in enumerate(frontier)]
         njobs = max(1, min(len(items), ctx.workers * 4))
@@ -580,7 +638,12 @@ def run(ctx: Ctx) -> Result:
                 samples.append(_describe(s, hist))
         if not nnew:
             break
+    stats['_transitions'] = transitions
+    return seen, per_depth
 
+
+def _finish(ctx, passes, sizes, seen, stats, vios, transitions, per_pass,
+            samples, depth, kinds):
     # the seams the alphabet is aimed at must all have been exercised
     need = [
         'put_refused_situation', 'process_with_expired_running',
@@ -588,6 +651,9 @@ def run(ctx: Ctx) -> Result:
         'process_with_queued_jobs_submit_while_stopping',
         'terminate_with_queue', 'terminate_with_running', 'saturated',
         'pipe_polls',
+        'stop_by_callback_during_process_with_queued_jobs_submit',
+        'stop_requested_by_callback_in_proc',
+        'close_requested_by_callback_in_proc',
     ]
     # outcomes expected when the property holds (only demanded then)
     need_if_clean = [
@@ -623,7 +689,7 @@ def run(ctx: Ctx) -> Result:
         'states': len(seen),
         'transitions': transitions,
         'traces_validated_against_impl': transitions,
-        'new_states_per_depth': per_depth,
+        'passes': per_pass,
         'depth': depth,
         'pool_sizes': sizes,
         'command_kinds': kinds,
@@ -662,7 +728,15 @@ def run(ctx: Ctx) -> Result:
         'exit codes are scripted per command kind (0, 1, 255); a 255 exit is '
         'an ssh command (with and, in the thorough tier, without a 255 '
         'callback)',
-        f'histories up to depth {depth}; every history is additionally '
+        'stop requests from inside the pool (a command callback calling '
+        'set_stopping() or close(), normal or 255 callback) are explored '
+        'through three short command kinds; a stop request made by a '
+        'callback counts as "stopping" from that instant; in the thorough '
+        'tier these kinds are explored to depth 6 (second pass), the other '
+        'kinds to depth 7',
+        'passes (command kinds, depth): '
+        + '; '.join(f'{len(k)} kinds to depth {d}' for k, d in passes)
+        + '; every history is additionally '
         'closed by a canonical completion (all processes exit / time out, '
         'process() until empty) before the final "exactly one" judgement',
     ])
